@@ -26,6 +26,7 @@ at the top-level directory.
 #include <getopt.h>
 #endif
 #include "slu_mt_machines.h"
+#include "slu_mt_verif.h"
 
 /***********************************************************************
  * Macros
